@@ -165,7 +165,16 @@ def check_objsim(ctx):
                      "replay": path, "flavour": flavour, "trace": [], "ops_before": 0, "ops_after": 0, "occurrences": len(bad)}
                 hit = [k for k in known_here if k["sig"] == v["sig"]]
                 (findings if hit else violations).append((v, hit[0] if hit else None))
-    return finish(ctx, spec["level"], RULES[ctx.pid], results, violations, findings)
+    extra = {}
+    if ctx.pid == "C16":
+        extra = {"exhaustive": True, "exhaustive_space": "init function (6) x CPU model selecting the back end (3) x failing allocation index (1,2) x prior handle content class (6) = 216 cells, each enumerated many times; the tail of calls after the failed init is sampled"}
+    if ctx.pid == "C13":
+        extra = {"exhaustive": ctx.tier == "thorough", "exhaustive_space": "CPU-model grid (max leaf 6 x feature set 5 x OSXSAVE 2 x XCR0 4 x other sub-leaves 2 x out-of-range policy 2 x leaf-1 ECX 2 = 1920 models) x 6 init functions; quick enumerates a seeded third, thorough all of it; junk register/stack contexts are sampled (3 per cell)"}
+    if ctx.pid == "C10":
+        extra = {"exhaustive_dimensions": "key lengths 0..3*bs+16 and six huge values are enumerated for each of the 15 key-setting entry points; key bytes, placement and prior object state are sampled"}
+    if ctx.pid == "C07":
+        extra = {"exhaustive_dimensions": "block counts 0..3*batch+3 are enumerated for each parallel object kind x simulated host; data, keys and follow-up calls are sampled"}
+    return finish(ctx, spec["level"], RULES[ctx.pid], results, violations, findings, extra_cov=extra)
 
 
 def finish(ctx, level, rule, results, violations, findings, extra_cov=None, assumptions=None):
